@@ -27,7 +27,7 @@ Mandatory == {"command", "env", "plugins", "matrix", "repository_url"}
 EnvField(n) == "env::" \o n
 
 (* ---------------- canonical content ---------------- *)
-SrcCanon == [short |-> "docker", canon |-> "docker", other |-> "local", other2 |-> "local2"]
+SrcCanon == [short |-> "docker", canon |-> "docker", suffixed |-> "docker-suffixed", other |-> "local", other2 |-> "local2"]
 CfgCanon == [null |-> "NONE", empty |-> "NONE", emptylist |-> "NONE", kv |-> "kv", kw |-> "kw", deep_v |-> "deep_v", deep_w |-> "deep_w",
              num1 |-> "num1", str1 |-> "str1", bfalse |-> "bfalse", zero |-> "zero", emptystr |-> "emptystr"]
 MatrixCanon == [nil |-> "NONE", empty |-> "NONE", list_ab |-> "list_ab", list_ac |-> "list_ac", setup_os |-> "setup_os", setup_os2 |-> "setup_os2",
